@@ -9,7 +9,8 @@ UNITS = ['lib/ringbuffer.c', 'lib/log_blackbox.c', 'lib/log_format.c', 'lib/log.
 TECHNIQUE = ('static analysis: CFG loop/cut-set rules for the make-room loop, abstract interpretation over linear inequalities for '
              'reserve >= commit in the blackbox writer, constant agreement of writer/reader layouts')
 DECIDES = ('Decides that in overwrite mode room is made by reclaiming published chunks in a loop on the same margin comparison '
-           'before the new header is written, that the blackbox writer never commits more than it reserved and stays inside the '
+           'before the new header is written, that an emptied overwrite ring is not taken for a full one, that the stepped index '
+           'stays below word_size, that the blackbox writer never commits more than it reserved and stays inside the '
            'reservation with every copy, and that writer and reader agree on the record layout; "exactly the newest k chunks" over all '
            'length sequences is not decided.')
 RULES = {
